@@ -529,6 +529,91 @@ fn deep_run(seed: u64, run: u64, pool: &crate::world::KeyPool<V512>) -> RunOutco
     out
 }
 
+/// Cold start: in a process in which the library has not run yet, 2-6 threads make their very first calls
+/// side by side - decode a public key and a signature from bytes and verify (aligned starts, function-entry
+/// pre-emption). Whatever the library sets up on first use must be complete before anybody uses it.
+fn cold_run(seed: u64, run: u64, pool: &crate::world::KeyPool<V512>) -> RunOutcome {
+    let mut rng = Prng::new(report::run_seed(seed, "C02cold", run));
+    let mut out = RunOutcome::default();
+    out.stats.inc("runs");
+    out.stats.inc("runs.deep_cold_start");
+    let spec = SpecVerifier::new(512);
+    let p = codec::params(512);
+    let nthreads = 2 + rng.usize_below(5);
+    type Item = (Vec<u8>, Vec<u8>, Vec<u8>, bool);
+    let mut work: Vec<Vec<Item>> = Vec::new();
+    for _ in 0..nthreads {
+        let mut items = Vec::new();
+        for _ in 0..2 + rng.usize_below(3) {
+            let k = rng.pick(&pool.keys);
+            let (m, sg) = rng.pick(&k.sigs).clone();
+            let want = match (codec::sig_decode(p, &sg), codec::pk_decode(p, &k.pk_bytes)) {
+                (Ok(f), Ok(h)) => spec.verify(&m, f.salt, f.body, &h).accepted(),
+                _ => false,
+            };
+            items.push((k.pk_bytes.clone(), m, sg, want));
+        }
+        work.push(items);
+    }
+    type Out = Vec<Result<bool, crate::guard::Unwind>>;
+    let bodies: Vec<Box<dyn FnOnce(std::rc::Rc<crate::sched::Handle>) -> Out + Send>> = work
+        .iter()
+        .map(|items| {
+            let items = items.clone();
+            Box::new(move |h: std::rc::Rc<crate::sched::Handle>| {
+                let _deep = crate::deep::install(&h);
+                let mut v = Vec::new();
+                for (pkb, m, sg, _) in items.iter() {
+                    h.boundary();
+                    v.push(guarded(|| match (V512::pk_from_bytes(pkb), V512::sig_from_bytes(sg)) {
+                        (Ok(pk), Ok(s)) => V512::verify(m, &s, &pk),
+                        _ => false,
+                    }));
+                }
+                v
+            }) as Box<dyn FnOnce(std::rc::Rc<crate::sched::Handle>) -> Out + Send>
+        })
+        .collect();
+    let opts = crate::sched::SchedOpts { align: true, dense_yields: *rng.pick(&[64u32, 256, 1024]), dense_exp: *rng.pick(&[1u32, 2, 3]) };
+    let (res, sched) = crate::sched::run_threads_opts(rng.next_u64(), Some(*rng.pick(&[3u32, 5, 7])), 64, opts, bodies);
+    if sched.free_running {
+        out.stats.inc("inconclusive.schedule_infeasible");
+        return out;
+    }
+    out.stats.steps += sched.steps;
+    out.stats.add("deep.yield_points", sched.steps);
+    out.stats.add("sched.switches", sched.switches);
+    out.stats.add("sched.lock_handoffs", sched.lock_handoffs);
+    out.stats.add("sched.aligned_starts", sched.aligned_pairs);
+    if sched.switches > 0 {
+        out.stats.interleavings.insert(sched.trace_hash);
+    }
+    'outer: for (t, tr) in res.iter().enumerate() {
+        let list = match tr {
+            Ok(l) => l,
+            Err(u) => {
+                out.violations.push(Violation { property: PROP, class: format!("simulated verifier thread died: {}", u.signature()), detail: format!("cold run {} thread {}", run, t), replay: json!({"kind": "deep-rerun", "cold": true, "deep": true, "seed": seed, "run": run}), run: (1 << 41) + 5000 + run });
+                break;
+            }
+        };
+        for (i, r) in list.iter().enumerate() {
+            out.stats.evaluations += 1;
+            let want = work[t][i].3;
+            let bad = match r {
+                Ok(b) if *b == want => None,
+                Ok(true) => Some("verify512 accepts what the specification rejects in a process that is just starting to use the library".to_string()),
+                Ok(false) => Some("verify512 rejects what the specification accepts in a process that is just starting to use the library".to_string()),
+                Err(u) => Some(format!("verify512 {} (first calls of a process)", u.signature())),
+            };
+            if let Some(class) = bad {
+                out.violations.push(Violation { property: PROP, class, detail: format!("cold run {} thread {} call {}", run, t, i), replay: json!({"kind": "deep-rerun", "cold": true, "deep": true, "seed": seed, "run": run}), run: (1 << 41) + 5000 + run });
+                break 'outer;
+            }
+        }
+    }
+    out
+}
+
 fn deep_pool(seed: u64) -> crate::world::KeyPool<V512> {
     crate::world::KeyPool::build(report::run_seed(seed, "c02-deep-pool", 0), 6, 4, report::workers())
 }
@@ -542,13 +627,15 @@ pub fn deepruns_main(tier: Tier, seed: u64, outfile: &str) -> i32 {
         eprintln!("HARNESS-ERROR: deep key pool could not be built");
         return 2;
     }
-    let mut out = report::parallel_runs(runs, w, |run| deep_run(seed, run, &pool));
+    // two thirds warm runs (keys loaded, then threads), one third cold-start runs
+    let cold = runs / 2;
+    let mut out = report::parallel_runs(runs + cold, w, |run| if run < runs { deep_run(seed, run, &pool) } else { cold_run(seed, run - runs, &pool) });
     for (run, what) in report::take_dead_runs(&mut out.stats) {
         out.violations.push(Violation {
             property: PROP,
             class: format!("run's process died: {}", what),
             detail: format!("deep run {}", run),
-            replay: json!({"kind": "deep-rerun", "deep": true, "seed": seed, "run": run}),
+            replay: json!({"kind": "deep-rerun", "deep": true, "seed": seed, "run": run.min(runs - 1)}),
             run: (1 << 41) + 100 + run,
         });
     }
@@ -563,7 +650,8 @@ pub fn replay(doc: &Value) -> Option<String> {
         let seed = doc.get("seed")?.as_u64()?;
         let run = doc.get("run")?.as_u64()?;
         let pool = deep_pool(seed);
-        let o = crate::isolate::isolated(|| deep_run(seed, run, &pool).to_bytes(), crate::isolate::run_timeout_s()).ok()?;
+        let cold = doc.get("cold").and_then(|c| c.as_bool()).unwrap_or(false);
+        let o = crate::isolate::isolated(|| if cold { cold_run(seed, run, &pool).to_bytes() } else { deep_run(seed, run, &pool).to_bytes() }, crate::isolate::run_timeout_s()).ok()?;
         return RunOutcome::from_bytes(&o)?.violations.first().map(|v| v.class.clone());
     }
     let d = Delivery::from_json(doc.get("delivery")?)?;
@@ -660,7 +748,7 @@ pub fn check(tier: Tier, seed: u64) -> i32 {
             return 2;
         }
     }
-    rep.rule = "a case is one (msg, sig, pk) triple delivered to a verifier node: fresh honest signatures, the same through bit flips / overwrites / splices / torn writes of signature or key, Byzantine exact-norm triples (Z1: norm = T chosen at, one below and one above floor(beta^2) of either variant, optionally with an s1 coordinate at +-6144), non-canonical re-encodings of those (Z2: negative zero, padding bit, 256/512/1024 extra unary zeros), grammar-aware crafted bodies, plus duplicated and reordered deliveries, cross-variant pairs (Z7), and a deep batch (instrumented build) in which 2-5 baton-scheduled threads, each mostly with its own public key, verify honest signatures under the right and under other keys, every verdict compared with SpecVerify's; non-trivial = both inputs decode and the compressed part is well-formed, so the verdict is decided by the norm test; distinct = distinct triples".into();
+    rep.rule = "a case is one (msg, sig, pk) triple delivered to a verifier node: fresh honest signatures, the same through bit flips / overwrites / splices / torn writes of signature or key, Byzantine exact-norm triples (Z1: norm = T chosen at, one below and one above floor(beta^2) of either variant, optionally with an s1 coordinate at +-6144), non-canonical re-encodings of those (Z2: negative zero, padding bit, 256/512/1024 extra unary zeros), grammar-aware crafted bodies, plus duplicated and reordered deliveries, cross-variant pairs (Z7), and a deep batch (instrumented build) in which 2-5 baton-scheduled threads, each mostly with its own public key, verify honest signatures under the right and under other keys, every verdict compared with SpecVerify's (a third of these runs are cold starts: the threads' first calls are the first calls of the process, side by side); non-trivial = both inputs decode and the compressed part is well-formed, so the verdict is decided by the norm test; distinct = distinct triples".into();
     rep.assumptions = vec![
         "SpecVerify (sim/src/reference/specverify.rs) implements Algorithms 16/3/18 of the specification; SHAKE-256 comes from the sha3 crate (trusted, cross-checked against PQClean's Keccak by C16)".into(),
         "public-key fields >= q, if the decoder accepts them, are reduced mod q on the reference side".into(),
